@@ -487,6 +487,12 @@ func TestC01(t *testing.T) {
 	defer func() { rec.Finish(completed) }()
 	c01Dog = common.NewWatchdog(rec, 4*time.Second)
 	if rec.Env.Replay != "" {
+		common.InstallLoggerForOddShards(common.ReplayShard(rec.Env.Replay))
+	}
+	if common.InstallLoggerForOddShards(rec.Env.Shard) {
+		rec.Class("log target installed (diagnostic lines executed)")
+	}
+	if rec.Env.Replay != "" {
 		common.ReplayOnly(t, rec, c01Run)
 		completed = true
 		return
